@@ -37,5 +37,7 @@ int main()
     { parser p("app", "about"); p.option("opt", "some description"); std::stringstream fresh, used; used << std::string(40, 'x') << "\n" << "prefix ";
       p.usage(fresh); p.usage(used); std::string u = used.str().substr(48);
       DEV("C15 usage text does not depend on what the stream already contains", u != fresh.str()); }
+    { parser p; p.option("x"); parser q(std::move(p)); int o = outcome([&] { q.toggle("x"); });
+      DEV("C13 after a move the parser still rejects a second meaning for a declared name (known finding parser_move_stale_backref)", o != 2); }
     return bad;
 }
